@@ -478,6 +478,28 @@ def c206(ctx):
                   (names, ",".join(t_[2:] for t_ in twin[0][2]) if twin else "-"),
                   "should_stall_ingest compares %s %s %s, which no comparison of should_perform_mandatory_compaction matches: an ingest can be held back "
                   "while no compaction is mandatory, and then nothing ever relieves it" % (sorted(q), op, names), pt=pt)
+    # the matching only helps if a stalled level 0 is past the mandatory thresholds: the default stall thresholds are not below
+    # the default mandatory ones (constants read from the Default impl's aggregate)
+    d = ctx.fn(R, "<lsmtk::LsmtkOptions as core::default::Default>::default")
+    if d:
+        vals = {}
+        for b in d.blocks:
+            for st_ in b.st:
+                if st_["s"] == "=" and st_["rv"]["r"] == "agg" and strip_generics(st_["rv"].get("adt", "")) == "lsmtk::LsmtkOptions" and "fields" in st_["rv"]:
+                    for name, o in zip(st_["rv"]["fields"], st_["rv"]["ops"]):
+                        cs = [c for c in P.origin_consts(d, o) if isinstance(c.get("v"), int)]
+                        if len(cs) == 1:
+                            vals[name] = cs[0]["v"]
+                        for x in P.origins(d, o):
+                            if x["k"] == "bin" and x["op"].startswith("Shl"):
+                                a_, b_ = x["st"]["rv"]["a"], x["st"]["rv"]["b"]
+                                if a_.get("k") == "const" and b_.get("k") == "const" and isinstance(a_["c"].get("v"), int) and isinstance(b_["c"].get("v"), int):
+                                    vals[name] = a_["c"]["v"] << b_["c"]["v"]
+        for kind in ("files", "bytes"):
+            sv, mv = vals.get("l0_write_stall_threshold_" + kind), vals.get("l0_mandatory_compaction_threshold_" + kind)
+            ctx.check(R, d, "default-thresholds-ordered:" + kind, sv is not None and mv is not None and sv >= mv,
+                      "default l0_write_stall_threshold_%s (%s) >= l0_mandatory_compaction_threshold_%s (%s)" % (kind, sv, kind, mv),
+                      "by default level 0 stalls ingest at %s %s but makes a compaction mandatory only at %s: an ingest can wait with nothing forcing a compaction" % (sv, kind, mv))
     f = ctx.fn(R, TREE + "apply_manifest_ingest")
     if f:
         ws = [p_ for p_ in P.call_points(f, r"Condvar::wait$") if "stall" in K.arg_field_names(f, p_, 0)]
